@@ -305,6 +305,9 @@ func Nullable[T any](e *kindOf[T]) *kindOf[proto.Nullable[T]] {
 	}
 }
 
+// LCSpread is the number of distinct values LowCardinality kinds generate from (raise it to leave one-byte keys).
+var LCSpread = 5
+
 // LowCardinality(T).
 func LowCardinality[T comparable](e *kindOf[T]) *kindOf[T] {
 	return &kindOf[T]{
@@ -314,7 +317,7 @@ func LowCardinality[T comparable](e *kindOf[T]) *kindOf[T] {
 		fromAbs: e.fromAbs,
 		gen: func(r *rand.Rand, budget int) any {
 			// few distinct values, so that keys repeat
-			rr := rand.New(rand.NewSource(int64(r.Intn(5))))
+			rr := rand.New(rand.NewSource(int64(r.Intn(LCSpread))))
 			return e.gen(rr, budget)
 		},
 		zero: e.zero,
